@@ -68,6 +68,22 @@ def _exec_sites(repo):
 def contracts():
     cs = []
     cs.append(Equiv('cli.glom_cli', 'ref_cli.glom_cli_ref', args={'target': 'ref', 'spec': 'ref', 'indent': 'int', 'debug': 'bool', 'inspect': 'bool', 'scalar': 'bool'}))
+    # mw_get_target, split by argument count x spec format x which of the file arguments are given (each case finishes; the whole function
+    # at once does not): spec / target selection, usage errors, and -- per case -- which evaluator the spec text reaches
+    summ = lambda cfg: cfg.summaries.update({'cli.mw_handle_target': 'handle_target', 'cli._eval_python_full_spec': 'eval_full_spec'})
+    import os
+    quick_cases = {(2, 'python', 'no-files'), (1, 'python', 'no-files'), (0, 'python', 'no-files'), (2, 'json', 'no-files'), (2, 'python-full', 'no-files'),
+                   (2, 'other', 'no-files'), (0, 'python', 'spec-file'), (1, 'python-full', 'spec-file'), (1, 'python', 'target-file'), (2, 'json', 'target-file')}
+    all_cases = os.environ.get('PYVC_TIER') == 'thorough' or os.environ.get('PYVC_ALL_CASES')
+    for nargs, ptag in ((0, 'tuple:'), (1, 'tuple:str'), (2, 'tuple:str,str')):
+        for fmt in ('python', 'json', 'python-full', 'other'):
+            for files, (sf, tf) in (('no-files', ('none', 'none')), ('spec-file', ('str', 'none')), ('target-file', ('none', 'str'))):
+                if not all_cases and (nargs, fmt, files) not in quick_cases:
+                    continue          # the quick tier proves ten of the 36 argument-shape cases; the thorough tier all of them
+                req = ["spec_format == %r" % fmt] if fmt != 'other' else ["spec_format != 'python'", "spec_format != 'json'", "spec_format != 'python-full'"]
+                cs.append(Equiv('cli.mw_get_target', 'ref_cli.get_target_ref', label='cli.mw_get_target[%d,%s,%s]' % (nargs, fmt, files),
+                                args={'next_': 'ref', 'posargs_': ptag, 'target_file': tf, 'target_format': 'ref', 'spec_file': sf, 'spec_format': 'str'},
+                                requires=req, config=summ))
     # the flag table: format names reach the middleware exactly as typed (a flag parser that rewrites them changes which branch runs)
     cs.append(Equiv('cli.get_command', 'ref_cli.get_command_ref', args={}))
     cs.append(Equiv('cli.main', 'ref_cli.main_ref', args={'argv': 'ref'}, config=lambda cfg: cfg.summaries.update({'cli.get_command': 'get_command'})))
@@ -261,7 +277,7 @@ BOUNDED = [bounded_cli_end_to_end]
 ASSUMPTIONS = [
     'face delivers parsed flags / positional arguments to the middleware and turns UsageError into a non-zero exit (A-face); @face_middleware returns the function unchanged',
     'ast.literal_eval does not execute code; json / yaml / tomllib loaders, open(), sys.stdin, print are opaque library primitives',
-    'mw_get_target is NOT proved (its path-wise symbolic execution does not finish in the quick budget): the no-exec clause is the syntactic guard obligation '
+    'mw_get_target is proved equal to its reference per argument shape (argument count x spec format x which file argument is given: 10 of the 36 shapes in the quick tier, all 36 in the thorough tier; both file arguments at once is not among them); the no-exec clause is ALSO the syntactic guard obligation '
     '(every call of the executing evaluator sits under  spec_format == "python-full" ), its behaviour is covered by the labelled bounded differential replay',
 ]
 TRUSTED = ['reference semantics contracts/ref_cli.py']
